@@ -389,6 +389,9 @@ def toplevel_ops(rec, obj, P):
         for n, K, a in tab:
             ops.append(_call("update", "update:one", **{n: K["conf"][-1]}, **f))
             ops.append(_call("transform", "transform:one", **{n: FN("inc")}, **f))
+            if "item" in K or K.get("nested"):
+                # an attribute transform that builds a new container around the very elements it was given
+                ops.append(_call("transform", "transform:one_shallow", **{n: FN("shallow")}, **f))
             if P.get("invalid", True) and K["bad"]:
                 ops.append(_call("update", "update:one_bad", **{n: K["bad"][0]}, **f))
                 ops.append(_call("transform", "transform:one_bad", **{n: FN("bad")}, **f))
